@@ -95,6 +95,7 @@ def run(e: Engine, rep: Report):
     n13(e, rep)
     n14(e, rep)
     n15(e, rep)
+    n16(e, rep)
     rep.floor('N1', 9, 'relay implementations / set sites')
     rep.floor('N2', 12, 'client command sites')
 
@@ -2036,3 +2037,58 @@ def n15(e: Engine, rep: Report, rule: str = 'N15'):
                'no bytes-only / str-only method on reply.command',
                reason='nothing to check (producers: %d)' % len(producers),
                nontrivial=False)
+
+
+# -------------------------------------------------------------------- N16
+def n16(e: Engine, rep: Report, rule: str = 'N16'):
+    """gevent counts a greenlet that was killed (GreenletExit) as
+    successful(), with the GreenletExit instance as its .value.  A relay
+    that kills its workers on a timeout and then collects `.value` files
+    that instance in its result - neither a success value nor a relay
+    error."""
+    rep.rule(rule, 'in the relay modules no `.value` of a greenlet is '
+             'collected on a path that follows a kill() of greenlets in the '
+             'same function (a killed greenlet is "successful" with a '
+             'GreenletExit object as its value)')
+    n = 0
+    for f in e.p.functions.values():
+        if not f.module.name.startswith('slimta.relay'):
+            continue
+        kills = [x for x in walk_own(f.node) if isinstance(x, ast.Call) and
+                 isinstance(x.func, ast.Attribute) and
+                 x.func.attr in ('kill', 'killall', 'killone')]
+        reads = [x for x in walk_own(f.node) if isinstance(x, ast.Attribute)
+                 and x.attr == 'value' and isinstance(x.ctx, ast.Load) and
+                 isinstance(x.value, ast.Name)]
+        if not kills or not reads:
+            continue
+        ctx = Ctx(f, f.cls.qname if f.cls is not None else None)
+        g = e.build(ctx, raises=lambda b, nn, r: {TIMEOUT}
+                    if nn.kind == 'call' else set())
+        rep.functions.add(f.qname)
+        knodes = [c for c in g.calls() if c.ast in kills]
+        for nd in g.nodes:
+            if nd.kind not in ('stmt', 'call', 'test'):
+                continue
+            hit = [x for x in c07.own_exprs(nd) for y in ast.walk(x)
+                   if y in reads]
+            if not hit:
+                continue
+            n += 1
+            rep.evaluations += 1
+            w = dataflow.typestate_witness(
+                g, False, lambda a, l, st: True if a in knodes else st,
+                lambda a, st, nd=nd: a is nd and st)
+            rep.check(w is None, rule, f.qname,
+                      '`.value` collected at line %d' % nd.ast.lineno,
+                      'after the workers were killed (timeout) their '
+                      '`.value` is still collected: gevent reports a killed '
+                      'greenlet as successful() with a GreenletExit object '
+                      'as value, which ends up in the result table - the '
+                      'queue matches no failure class for it and drops the '
+                      'recipient instead of retrying', loc=nd.loc(),
+                      reason='no kill on a path before',
+                      witness=dataflow.render_path(w, 10) if w else None)
+    if n == 0:
+        rep.ok(rule, 'slimta.relay', 'no greenlet value collected after a '
+               'kill', reason='nothing to check', nontrivial=False)
